@@ -38,7 +38,7 @@ enum Op {
 
 /// A map built so that two distinct beat lengths accumulate exactly the same duration
 /// (the tie `Beatmap::bpm` has to break) and with equal start times.
-fn tie_heavy(t: &mut Tape) -> MapSpec {
+pub fn tie_heavy(t: &mut Tape) -> MapSpec {
     let mut spec = gen_map(t, &MapProfile::small(OSU_ONLY, 12));
     let span = (t.range(1, 40) * 1000) as f64;
     let n_lens = t.range(2, 4) as usize;
@@ -65,6 +65,21 @@ fn tie_heavy(t: &mut Tape) -> MapSpec {
     let last = spec.objects.last_mut().unwrap();
     last.kind = crate::gen::map::ObjKind::Circle;
     last.time = end;
+    // a sixth: every object at or before 0 ms with the first timing point before 0 and the second at exactly 0
+    // (stable forces the first one to start at 0): every beat length accumulates a duration of exactly 0 and two
+    // of them also start at the same effective time
+    if t.chance(1, 6) {
+        let back = (t.range(1, 50) * 10) as f64;
+        spec.timing[0].time = -back;
+        spec.timing[1].time = 0.0;
+        let n = spec.objects.len();
+        for (i, o) in spec.objects.iter_mut().enumerate() {
+            o.time = if t.coin() { 0.0 } else { -((n - i) as f64) };
+            o.kind = crate::gen::map::ObjKind::Circle;
+        }
+        spec.objects.sort_by(|a, b| a.time.total_cmp(&b.time));
+        return spec;
+    }
     // a quarter of these maps is a *near*-tie at microscopic scale instead: the accumulated durations of
     // neighbouring beat lengths differ by less than f64::EPSILON while the extremes differ by more, so a
     // comparison that is not a total order would depend on the order in which the durations are visited
@@ -100,6 +115,41 @@ fn gen_world(t: &mut Tape) -> World {
     let mut specs = vec![tie_heavy(t)];
     for _ in 1..n_maps {
         specs.push(gen_map(t, &MapProfile::small(ALL_MODES, 25)));
+    }
+    // a fifth of the pools: the second map is an osu! map with 3-5 breaks of fractional length whose drain
+    // time (last - first - sum of the breaks, which the mania conversion truncates to whole seconds) lies
+    // exactly on a second boundary when the breaks are summed in file order: any other summation order
+    // (differing by an ulp) moves it across the boundary
+    if t.chance(1, 5) {
+        let mut spec = gen_map(t, &MapProfile::small(OSU_ONLY, 40));
+        let n_breaks = t.range(3, 5) as usize;
+        let mut at = 100.0;
+        spec.breaks = (0..n_breaks)
+            .map(|_| {
+                let start = at + (t.range(1, 9) as f64) / 10.0;
+                let end = start + t.range(200, 900) as f64 + (t.range(1, 9) as f64) / 10.0;
+                at = end + 50.0;
+                (start, end)
+            })
+            .collect();
+        let sum: f64 = spec.breaks.iter().map(|(a, b)| b - a).sum();
+        let secs = t.range(1, 4) as f64;
+        let last = secs * 1000.0 + sum;
+        let n = spec.objects.len().max(2);
+        while spec.objects.len() < 2 {
+            spec.objects.push(crate::gen::map::ObjSpec { x: 256, y: 192, time: 0.0, kind: crate::gen::map::ObjKind::Circle, sound: 0, custom_sample: false });
+        }
+        for (i, o) in spec.objects.iter_mut().enumerate() {
+            o.time = (last * i as f64 / n as f64).floor();
+            if let crate::gen::map::ObjKind::Spinner { end: e } | crate::gen::map::ObjKind::Hold { end: e } = &mut o.kind {
+                *e = o.time + 10.0;
+            }
+        }
+        spec.objects[0].time = 0.0;
+        let lo = spec.objects.last_mut().unwrap();
+        lo.kind = crate::gen::map::ObjKind::Circle;
+        lo.time = last;
+        specs[1] = spec;
     }
     let mut texts: Vec<String> = specs.iter().map(MapSpec::render).collect();
     // a third of the pools contains a text whose last slider line is malformed after its first path
@@ -347,7 +397,7 @@ pub fn property() -> Property {
         id: "C01",
         subchecks: vec![SubCheck {
             name: "history-invariant",
-            rule: "pool of 2-3 maps (map 0 always tie-heavy: >=2 distinct beat lengths with exactly equal accumulated duration, equal start times; a quarter instead near-ties at 1e-16 ms scale) x 3 Difficulty specs x 2 score specs x history of 6-40 ops over the public surface (decode via bytes+str (a third of the pools contains a text with a malformed trailing slider line), bpm x16 + fresh decode, convert by value/ref/mut, difficulty, strains, performance, gradual difficulty drain, gradual performance walk, attribute builder). Invariant: whenever an op key recurs (immediately or after ops on other maps) its canonical result is bit-identical to the first; no op modifies a map passed by reference (== against a snapshot after every op). Non-trivial: a recurrence separated by an op on another map, tie-heavy map has >=2 objects and >=2 beat lengths. The driver additionally runs the same seeded histories in two separate processes and compares digests (sub-check cross-process).",
+            rule: "pool of 2-3 maps (map 0 always tie-heavy: >=2 distinct beat lengths with exactly equal accumulated duration, equal start times; a quarter instead near-ties at 1e-16 ms scale, a sixth all-zero durations with two beat lengths starting at the same effective time) ; in a fifth of the pools the second map has 3-5 fractional breaks and a drain time exactly on a whole-second boundary) x 3 Difficulty specs x 2 score specs x history of 6-40 ops over the public surface (decode via bytes+str (a third of the pools contains a text with a malformed trailing slider line), bpm x16 + fresh decode, convert by value/ref/mut, difficulty, strains, performance, gradual difficulty drain, gradual performance walk, attribute builder). Invariant: whenever an op key recurs (immediately or after ops on other maps) its canonical result is bit-identical to the first; no op modifies a map passed by reference (== against a snapshot after every op). Non-trivial: a recurrence separated by an op on another map, tie-heavy map has >=2 objects and >=2 beat lengths. The driver additionally runs the same seeded histories in two separate processes and compares digests (sub-check cross-process).",
             quick: 8000,
             thorough: 60_000,
             tape_len: 2600,
